@@ -1,4 +1,5 @@
 import Compass.Drv.C09
+import Compass.Drv.C19
 
 /-- `driver <prop>`: reads one case per line on stdin, prints the model's canonical output line -/
 partial def loop (h : IO.FS.Stream) (out : IO.FS.Stream) (f : String → String) : IO Unit := do
@@ -13,6 +14,7 @@ partial def loop (h : IO.FS.Stream) (out : IO.FS.Stream) (f : String → String)
 
 def dispatch : String → Option (String → String)
   | "C09" => some Compass.Drv.C09.run
+  | "C19" => some Compass.Drv.C19.run
   | _ => none
 
 def main (args : List String) : IO UInt32 := do
